@@ -33,6 +33,16 @@ def setup():
   dsched.install(iter_utils)
 
 
+def ret_value(kind, i):
+  """What producer i's generator returns: truthy / falsy scalars and containers (a container is one value, not several)."""
+  import numpy as np  # pylint: disable=g-import-not-at-top
+  return {'str': f'ret{i}', 'zero': 0, 'empty_str': '', 'empty_tuple': (), 'false': False, 'tuple': ('a', i), 'list': [i, i + 1],
+          'dict': {'k': i}, 'array': np.array([i, i + 1])}[kind]
+
+
+RET_KINDS = ['str', 'str', 'str', 'zero', 'empty_str', 'empty_tuple', 'false', 'tuple', 'list', 'dict', 'array']
+
+
 def gen(pid, n, ret):
   for i in range(n):
     yield (pid, i)
@@ -81,6 +91,8 @@ def run_case(case):
   prod_done = [False] * len(prods)
   errors = []
   box = {}
+  rets = case.get('rets') or ['str'] * len(prods)
+  what += f' return values={rets}'
 
   def main():
     q = iter_utils.IteratorQueue(case['buffer'], max_enqueuer=len(prods), max_batch_size=case['max_batch_size'], name='q')
@@ -88,7 +100,7 @@ def run_case(case):
 
     def producer(i):
       try:
-        q.enqueue_from_iterator(gen(i, prods[i], f'ret{i}'))
+        q.enqueue_from_iterator(gen(i, prods[i], ret_value(rets[i], i)))
         prod_done[i] = True
       except Exception as e:  # pylint: disable=broad-exception-caught
         errors.append(('producer', i, e))
@@ -120,7 +132,7 @@ def run_case(case):
     for t in ths:
       t.join()
   try:
-    _, s = dsched.run(main, case['schedule'], max_steps=30000)
+    _, s = dsched.run(main, case['schedule'], max_steps=30000 if sum(prods) < 100 else 400000)
   except dsched.Deadlock as e:
     raise Violation('deadlock', f'{what}: {e}') from e
   except dsched.StepBudget as e:
@@ -139,10 +151,11 @@ def run_case(case):
     for p, i in r:
       check(last.get(p, -1) < i, 'per-producer-order-violated', f'{what}: consumer {ci} received {r}')
       last[p] = i
-  want_ret = sorted(f'ret{i}' for i in range(len(prods)))
+  want_ret = sorted(repr(ret_value(rets[i], i)) for i in range(len(prods)))
   for ci, f in enumerate(finals):
     check(f is not None, 'consumer-did-not-terminate', f'{what}: consumer {ci} has no terminal StopIteration')
-    check(sorted(f) == want_ret, 'end-of-stream-misses-return-values', f'{what}: consumer {ci} ended with StopIteration{f!r}, want {want_ret}')
+    check(sorted(map(repr, f)) == want_ret, 'end-of-stream-misses-return-values',
+          f'{what}: consumer {ci} ended with StopIteration{f!r}, want the producers\' return values {want_ret}')
   check(all(prod_done), 'producer-did-not-return', f'{what}: producers done = {prod_done}')
   check(q.exhausted and q.enqueue_done, 'queue-not-exhausted-at-end', f'{what}: exhausted={q.exhausted} enqueue_done={q.enqueue_done}')
   waited = sum(v for k, v in s.blocked_events.items() if k in ('Condition.wait',))
@@ -159,8 +172,16 @@ def strat(tier):
     cons = draw(st.lists(st.builds(lambda m, n: {'mode': m, 'n': n},
                                    st.sampled_from(['get', 'batch_nb', 'batch_b', 'batch_b', 'iter']), st.integers(1, 3)),
                          min_size=1, max_size=3))
-    return {'producers': prods, 'buffer': draw(st.sampled_from([0, 1, 1, 2, 3])), 'consumers': cons,
-            'max_batch_size': draw(st.sampled_from([0, 0, 1, 2])), 'schedule': draw(schedule_strategy())}
+    case = {'producers': prods, 'buffer': draw(st.sampled_from([0, 1, 1, 2, 3])), 'consumers': cons,
+            'max_batch_size': draw(st.sampled_from([0, 0, 1, 2])), 'schedule': draw(schedule_strategy()),
+            'rets': [draw(st.sampled_from(RET_KINDS)) for _ in prods]}
+    if draw(st.integers(0, 99)) == 0:
+      # a long stream that an iterating consumer may receive as one batch of more than 2**8 elements
+      case.update(producers=draw(st.sampled_from([[257], [300], [150, 150]])), buffer=0, consumers=[{'mode': 'iter', 'n': 1}],
+                  max_batch_size=draw(st.sampled_from([0, 1024])), schedule=draw(st.sampled_from([{'mode': 'np'}, {
+                      'mode': 'walk', 'choices': [], 'seed': 1, 'p_switch': 0.1}])))
+      case['rets'] = ['str'] * len(case['producers'])
+    return case
   return s()
 
 
